@@ -4,4 +4,4 @@ go 1.21
 
 require github.com/amzn/ion-go v0.0.0
 
-replace github.com/amzn/ion-go => /tmp/prefix1
+replace github.com/amzn/ion-go => /tmp/prefix2
